@@ -199,8 +199,10 @@ func checkDNS(e *c17Env, payload []byte, qname string, want string) (got string,
 		return "", "Parse rejected the frame: " + err.Error()
 	}
 	entry, err := h.ProcessDNS(frame)
-	for i := range buf {
-		buf[i] = 0xa5 // stored names must not alias the packet buffer
+	if !scribbleOff {
+		for i := range buf {
+			buf[i] = 0xa5 // stored names must not alias the packet buffer
+		}
 	}
 	if err != nil {
 		got = "error"
@@ -266,6 +268,12 @@ func c17DNS(c *core.Ctx, e *c17Env, qname string, rrs []c17RR, sections []int, c
 	c.Count("evaluations", 1)
 	c.Distinct(payload)
 	want := expectedDNS(qname, rrs, sections)
+	if differential { // C10: the stored entry must not depend on what happens to the receive buffer afterwards
+		if v := c10DNS(e, payload, qname, want); v != "" {
+			c.Violate("alias|dns-table", fmt.Sprintf("question %s sections %v compress=%v: %s", trunc([]byte(qname), 40), sections, compress, v), c17Replay{Kind: "dns", Hex: hex.EncodeToString(payload), QName: qname, Want: want})
+		}
+		return
+	}
 	if got, failure := checkDNS(e, payload, qname, want); failure != "" {
 		kinds := ""
 		for _, r := range rrs {
@@ -357,6 +365,12 @@ func c17Run(c *core.Ctx, args []string) {
 	e := &c17Env{}
 	unit := 0
 	next := func() bool { unit++; return c.Mine(unit - 1) }
+	c17DNSSweep(c, e, next)
+	c17Rest(c, e, next)
+}
+
+// c17DNSSweep enumerates the well formed DNS responses (names, record sequences x section placement, duplicates).
+func c17DNSSweep(c *core.Ctx, e *c17Env, next func() bool) {
 	// names
 	for _, qn := range c17Names() {
 		if !next() {
@@ -429,6 +443,12 @@ func c17Run(c *core.Ctx, args []string) {
 	if next() {
 		c17DNS(c, e, "www.example.com", []c17RR{{"a", "www.example.com", "10.1.2.3"}, {"a", "other.example.com", "10.1.2.3"}}, []int{0, 0}, true)
 		c17DNS(c, e, "www.example.com", []c17RR{{"cname", "www.example.com", "a.example.com"}, {"cname", "www.example.com", "b.example.com"}}, []int{0, 0}, true)
+	}
+}
+
+// c17Rest: pointer shapes, malformed messages, truncations, mDNS/NBNS names and the merge algebra.
+func c17Rest(c *core.Ctx, e *c17Env, next func() bool) {
+	if next() {
 		{
 			// compression pointers beyond offset 1023 (all 14 offset bits are significant)
 			payload, want := c17FarPointer()
